@@ -1112,6 +1112,69 @@ def b19(ctx, rid):
         raise core.AnchorLost('atomic updates in src/filter/atomic_bitvec.rs: %d' % n)
 
 
+def b20(ctx, rid):
+    """merging two bit vectors ORs every word: a loop over the words of the filter code that steps in fixed-size groups
+    (`chunks_exact`, `step_by`) also handles the remainder, or does not use such a stepping at all - a dropped last word loses
+    the bits of every key that hashes into it"""
+    prog = ctx.prog
+    n = 0
+    for f in prog.fns.values():
+        if f.file not in ('src/filter/atomic_bitvec.rs', 'src/filter/bloom.rs'):
+            continue
+        n += 1
+        fam = [prog.fns[x] for x in prog.family(prog.fns[f.id].root)] if f.id == prog.fns[f.id].root else []
+        steps = [c for g in fam for c in g.calls if c.bb in g.reachable() and c.name in ('chunks_exact', 'chunks_exact_mut', 'step_by', 'array_chunks', 'as_chunks')]
+        if not steps:
+            continue
+        rem = [c for g in fam for c in g.calls if c.bb in g.reachable() and c.name in ('remainder', 'into_remainder', 'as_rchunks')]
+        key = 'grouped-walk-handles-remainder|%s' % f.id
+        if rem:
+            ctx.ok(rid, key, steps[0].where(), 'remainder handled')
+        else:
+            ctx.bad(rid, key, steps[0].where(), 'the words of the bit vector are walked in fixed-size groups (`%s`) and the remainder is never visited: with a word count that is not a multiple of the group size the last word(s) are not merged / not checked' % steps[0].name)
+    if n < 10:
+        raise core.AnchorLost('functions in the bit-vector / bloom code: %d' % n)
+    ctx.ok(rid, 'scan', '', '%d functions of the bit-vector / bloom code scanned' % n, nontrivial=False, queries=n)
+
+
+def b21(ctx, rid):
+    """child ids are positions in the `children` vector, and pop / remove leave an empty slot behind (C04.T6): every decision of
+    HierarchicalFilters::push that compares a child count with the group size counts *slots* (Vec::len), never occupied
+    children (`self.len()`) - after one restore the two differ, the re-root is skipped and the next push panics in the worker"""
+    prog = ctx.prog
+    f = prog.body_of('filter::hierarchical::HierarchicalFilters::<Key, Filter, Child>::push')
+    if f is None:
+        raise core.AnchorLost('HierarchicalFilters::push')
+    n = 0
+    bad = None
+    for i, b in enumerate(f.blocks):
+        if b['c'] or i not in f.reachable():
+            continue
+        for st in b['s']:
+            if st['k'] != 'a' or st['r']['k'] != 'bin' or st['r']['op'] not in ('Lt', 'Le', 'Gt', 'Ge', 'Eq', 'Ne'):
+                continue
+            sides = []
+            for side in ('a', 'b'):
+                sites = []
+                lv = core.scalar_leaves(prog, f, st['r'][side], depth=0, sites=sites)
+                sides.append((lv, sites))
+            gs = [k for k, (lv, _) in enumerate(sides) if ('field', 'group_size') in lv]
+            if len(gs) != 1:
+                continue
+            n += 1
+            lv, sites = sides[1 - gs[0]]
+            for (nm, fid, bb) in sites:
+                c = prog.fns[fid].call_at(bb)
+                if c is not None and nm == 'len' and not c.path.startswith('std::vec::Vec') and not c.path.startswith('alloc::vec::Vec'):
+                    bad = c
+    if n < 2:
+        raise core.AnchorLost('comparisons with group_size in push: %d' % n)
+    if bad:
+        ctx.bad(rid, 'push-counts-slots', bad.where(), 'push compares `%s` (occupied children) with the group size where the other decisions count slots of the children vector: after a pop / restore the counts differ, a full root is not re-rooted and the next push treats a leaf as a node' % bad.path)
+    else:
+        ctx.ok(rid, 'push-counts-slots', f.where(), '%d comparisons with group_size, all on Vec::len of a children vector' % n)
+
+
 RULES = [
     Rule('C10.B1', 'every `definitely absent` answer lies in its owner and is controlled by that owner\'s justifying test; defaults are NeedAdditionalCheck', b1, 11),
     Rule('C10.B2', 'filter.add(key) dominates every insertion into the in-memory header map', b2, 2),
@@ -1131,5 +1194,7 @@ RULES = [
     Rule('C10.B17', 'the filter a storage reports for itself is None or built from the closed-blob root filter, never the active filter alone', b17, 1),
     Rule('C10.B18', 'a range filter restored from bytes is the deserialised one or an error, never a fresh (all-absent) filter', b18, 1),
     Rule('C10.B19', 'bits of the shared bit vector are updated by atomic read-modify-write operations (or a retried compare_exchange)', b19, 2),
+    Rule('C10.B20', 'a grouped walk over the words of a bit vector handles the remainder', b20, 1),
+    Rule('C10.B21', 'every comparison with the group size in push counts slots of the children vector', b21, 1),
     Rule('C10.B9', 'the range merge can extend both bounds in one call', b9, 1),
 ]
